@@ -383,18 +383,35 @@ def _historical(ctx):
         body = lo[4]
         ok = False
         detail = f"hiding step is {ir.show(body, maxdepth=4)}"
-        if body[0] == "call" and body[1][0] == "attr" and body[1][2] == "assign":
-            for kk, vv in body[3]:
-                if kk is None and vv[0] == "dict" and len(vv[1]) == 1:
-                    name, lam = vv[1][0]
-                    v = b.lambda_apply(lam, [("param", "x")])
-                    thr = ("param", "percent_reporting_threshold")
-                    ok = (v[0] == "call" and ir.show(v[1]).endswith("where") and len(v[2]) == 3
-                          and v[2][0] == ("cmp", ">=", ("attr", ("param", "x"), "percent_expected_vote"), thr)
-                          and v[2][1] == ("sub", ("param", "x"), name) and v[2][2] == ("const", 0)
-                          and ir.show(name).startswith("f'results_"))
-                    detail = ("results_e := where(percent_expected_vote >= threshold, results_e, 0): same comparator as the unit split" if ok
-                              else f"hiding is {ir.show(v, maxdepth=4)} (the unit split treats 'percent_expected_vote >= threshold' as reporting)")
+        # the results_e column after one pass, as a selection over the column before it (whatever spelling: assign + numpy.where,
+        # Series.where / mask, .loc[rows, column] = 0)
+        from ..frames import Frames, where_form
+        prev = body
+        while prev[0] != "loopin":
+            prev = prev[1][1] if prev[0] == "call" and prev[1][0] == "attr" else (prev[1] if prev[0] in ("setitem", "setattr") else None)
+            if prev is None:
+                break
+        if prev is not None:
+            Fh = Frames(b, {prev: "H"})
+            RES = ("fstr", (("const", "results_"), ("elem", ("param", "estimands"), lo[1])))
+            try:
+                v = Fh.col(body, RES)
+            except AnalysisError as e:
+                v = None
+                detail = f"hiding step not resolved: {e}"
+            wf = where_form(v) if v is not None else None
+            if wf is not None:
+                c_, a_, b_ = wf
+                thr = ("param", "percent_reporting_threshold")
+                pev = [("col", prev, ("const", "percent_expected_vote"))]
+                # the expected vote may be read from the merged frame before the loop: the same column
+                cond_ok = c_[0] == "cmp" and c_[1] == ">=" and c_[3] == thr and (c_[2] in pev or (c_[2][0] == "col" and c_[2][2] == ("const", "percent_expected_vote")) or
+                                                                               (c_[2][0] == "sub" and c_[2][2] == ("const", "percent_expected_vote")))
+                ok = cond_ok and a_ == ("col", prev, RES) and b_ == ("lit", 0)
+                detail = ("results_e := results_e where percent_expected_vote >= threshold, else 0: same comparator as the unit split" if ok
+                          else f"hiding is where({ir.show(c_, maxdepth=4)}, {ir.show(a_, maxdepth=3)}, {ir.show(b_, maxdepth=3)}) (the unit split treats 'percent_expected_vote >= threshold' as reporting)")
+            elif v is not None:
+                detail = f"results_e after the hiding step is {ir.show(v, maxdepth=4)}: not a selection"
         ctx.ob("C10.R4.comparator", f"{f.qualname}|hidden where below the threshold (>= as in get_units)", ok, f.where(), detail)
     # sibling: the unit split's comparator
     us = UnitSplit(ctx)
